@@ -10,6 +10,7 @@ API.
 """
 
 import json
+import os
 import pathlib
 import struct
 from tempfile import TemporaryDirectory
@@ -108,9 +109,16 @@ class OnDiskByteArray:
         return self._len
 
     def __add__(self, o):
+        try:
+            with open(self._file, "ab") as fp:
+                fp.write(o)
+        except OSError:
+            # Undo a partial write, so that the buffer still holds exactly
+            # the self._len bytes that were appended successfully
+            if self._file.exists():
+                os.truncate(self._file, self._len)
+            raise
         self._len += len(o)
-        with open(self._file, "ab") as fp:
-            fp.write(o)
         return self
 
     def __radd__(self, o):
